@@ -25,6 +25,11 @@ func c03Item(name string, kind int, tag string) (any, string, bool) {
 		return vh.Fault{Kind: vh.StrayClose, Text: "}"}, "", false
 	case 4:
 		return vh.Fault{Kind: vh.ReadErr}, "", false
+	case 6:
+		// one arbitrary byte that is neither JSON white space nor the beginning of a value
+		g := vh.Bytes(name+"g", 1)
+		vh.Assume(vh.Not(vh.OneOf(g[0], " \t\n\r\"{[]}-0123456789tfn")))
+		return vh.Fault{Kind: vh.Garbage, Text: g}, "", false
 	}
 	return vh.Fault{Kind: vh.Truncated, Text: "{\"t\": 1, \"b\":"}, "", false
 }
@@ -39,7 +44,7 @@ func VHC03Faults() {
 	want := ""
 	bad := -1
 	for i := 0; i < k; i++ {
-		kind := vh.Choose("kind"+itoa(i), 6)
+		kind := vh.Choose("kind"+itoa(i), 7)
 		if kind == 5 && i != k-1 {
 			kind = 0 // a truncated value can only be the last thing in a stream
 		}
